@@ -17,16 +17,32 @@ def _norm(st):
     return head + " C " + " ".join(cons)
 
 
-def correspond(ctx):
+class _Rec:
+    """stands in for ctx inside a worker process: records the calls, the parent replays them in plug-in order"""
+    def __init__(self):
+        self.calls = []
+
+    def corr(self, *a, **k):
+        self.calls.append(("corr", a, k))
+
+    def count(self, *a, **k):
+        self.calls.append(("count", a, k))
+
+    def violation(self, *a, **k):
+        self.calls.append(("violation", a, k))
+
+
+def _tie_plugin(args):
+    """one plug-in's tie, run in a worker process with its own model runner"""
+    name, tier, seed, runner = args
     import c11lib as L
     import pC11
-    plugs = [p for p in pC11._plugs(ctx) if getattr(p, "TIER1", None)]
-    if not plugs:
-        return
-    m = ctx.model("C11")
-    for p in plugs:
-        rng = random.Random("%s/%s/t1" % (ctx.seed, p.NAME))
-        for pb in p.tier1_problems(ctx.tier, rng):
+    p = [q for q in L.plugins() if q.NAME == name][0]
+    m = pC11.Runner(runner)
+    rec = _Rec()
+    try:
+        rng = random.Random("%s/%s/t1" % (seed, p.NAME))
+        for pb in p.tier1_problems(tier, rng):
             tok = L.pb_tokens(p.encode(pb))
             rep = m.call("M %s %s" % (p.NAME, tok))
             if rep.startswith("OK "):
@@ -42,9 +58,35 @@ def correspond(ctx):
                 io = ("harness", "%d solvers" % len(insts))
             else:
                 io = ("ok", _norm(exprio.show_state(insts[0])))
-            ctx.corr("program:" + p.NAME, tok, mo, io)
+            rec.corr("program:" + p.NAME, tok, mo, io)
             if r[0] == "ok" and len(insts) == 1:
-                glue(ctx, m, p, pb, tok, r[1], insts[0])
+                glue(rec, m, p, pb, tok, r[1], insts[0])
+    except Exception:  # noqa
+        import traceback
+        rec.corr("tie-harness:" + name, "exception", "no exception", traceback.format_exc()[-1500:])
+    finally:
+        try:
+            m.p.stdin.close()
+            m.p.wait(timeout=5)
+        except Exception:  # noqa
+            pass
+    return name, rec.calls
+
+
+def correspond(ctx):
+    import multiprocessing
+    import pC11
+    plugs = [p for p in pC11._plugs(ctx) if getattr(p, "TIER1", None)]
+    if not plugs:
+        return
+    runner = vlib.build_runner("C11")
+    jobs = [(p.NAME, ctx.tier, ctx.seed, runner) for p in plugs]
+    mp = multiprocessing.get_context("fork")
+    with mp.Pool(min(16, len(jobs))) as pool:
+        done = dict(pool.map(_tie_plugin, jobs, chunksize=1))
+    for p in plugs:                      # replayed in plug-in order: the evidence does not depend on scheduling
+        for (kind, a, k) in done[p.NAME]:
+            getattr(ctx, kind)(*a, **k)
 
 
 def glue(ctx, m, p, pb, tok, ret, sv):
